@@ -259,12 +259,13 @@ BranchDefault(br) == IF Len(br.fields) = 1 THEN MemberDefault(br.fields[1]) ELSE
 \* `pool` = the words nobody has claimed yet (with their positions); the result says which of them remain
 AltVal(f, acc, envv, pool) ==
   LET R0 == [i \in DOMAIN acc \cup {POOL} |-> IF i = POOL THEN pool ELSE acc[i]] IN
-  IF f.arity \in {"many", "some"} THEN
+  IF f.arity \in {"many", "some", "count"} THEN
      LET r == AltRounds(f, R0, <<>>, 16, envv, R0) IN
      IF ~r.ok THEN r
      ELSE IF Leftover(f, r.R) THEN [ok |-> FALSE, why |-> [k |-> "leftover"]]
      ELSE IF f.arity = "some" /\ r.vals = <<>> THEN [ok |-> FALSE, why |-> [k |-> "missing", id |-> f.id]]
-     ELSE [ok |-> TRUE, v |-> r.vals, pool |-> r.R[POOL]]
+     \* `count()` over a group: how many times the group was given in full (a partly given one is left over)
+     ELSE [ok |-> TRUE, v |-> IF f.arity = "count" THEN [count |-> Len(r.vals)] ELSE r.vals, pool |-> r.R[POOL]]
   ELSE
      \* every branch is tried on the same line; among those that succeed the one that consumed the leftmost
      \* item wins (ties and non-consuming successes go to the first listed); what the losers would have
@@ -318,6 +319,8 @@ AdjVal(g, B) ==
                             ELSE IF Len(vs) = 1 THEN [ok |-> TRUE, v |-> [some |-> vs[1]]]
                             ELSE [ok |-> FALSE, why |-> [k |-> "toomany", id |-> g.id]]
       [] g.arity = "many" -> [ok |-> TRUE, v |-> vs]
+      [] g.arity = "some" -> IF vs = <<>> THEN [ok |-> FALSE, why |-> [k |-> "missing", id |-> g.id]] ELSE [ok |-> TRUE, v |-> vs]
+      [] g.arity = "count" -> [ok |-> TRUE, v |-> [count |-> Len(vs)]]
 
 \* adjacent subcommands that are the alternatives of one repeated choice (`construct!([build, test, clean]).many()`):
 \* one value per block, in command-line order of the blocks, tagged with the command it belongs to
@@ -329,6 +332,7 @@ JoinedVal(d, gs, k) ==
       BV(pr) == BlockVal(d.named[pr[1]], gs.blocks[pr[1]][pr[2]])
       sorted == SetToSortSeq(all, LAMBDA a, b : gs.blocks[a[1]][a[2]].p < gs.blocks[b[1]][b[2]].p) IN
   IF \E pr \in all : ~BV(pr).ok THEN [ok |-> FALSE, why |-> [k |-> "conv"]]
+  ELSE IF d.named[k].arity = "some" /\ all = {} THEN [ok |-> FALSE, why |-> [k |-> "missing", id |-> d.named[k].id]]
   ELSE [ok |-> TRUE, v |-> [n \in DOMAIN sorted |-> [v |-> Cardinality({x \in J : x < sorted[n][1]}), x |-> BV(sorted[n]).v]]]
 
 GFinish(d, gs0, envv) ==
